@@ -650,6 +650,8 @@ def string_fragment(report, uri_consts, shape_consts):
              'determine_suitable_iri_pattern', {'longest_common_prefix': 'optstr'}, 'optstr'),
             ("shexer/utils/triple_yielders.py", None, 'check_if_property_belongs_to_namespace_list', 'check_if_property_belongs_to_namespace_list',
              {'str_prop': 'str', 'namespaces': 'strlist'}, 'bool'),
+            ("shexer/io/shex/formater/statement_serializers/base_statement_serializer.py", 'BaseStatementSerializer', '_prefixize_uri_if_possible',
+             'serializer_prefixize_uri_if_possible', {'uri': 'str', 'namespaces_dict': 'strdict'}, 'optstr'),
             ("shexer/utils/shapes.py", None, 'build_shapes_name_for_class_uri', 'build_shapes_name_for_class_uri',
              {'class_uri': 'str', 'shapes_namespace': 'str'}, 'str'),
             ("shexer/utils/translators/list_of_classes_to_shape_map.py", 'ListOfClassesToShapeMap', '_get_shape_label_for_class_uri',
@@ -677,7 +679,7 @@ def string_fragment(report, uri_consts, shape_consts):
         header = next((l for l in out if l.startswith("def S.%s " % lname) or l.startswith("def %s " % lname)), "")
         nstr = sum(1 for t in types.values() if t == 'str')
         pat = "[" + ", ".join("s%d" % i for i in range(nstr)) + "]"
-        if 'strlist' in types.values():        # the strings after the plain ones are the list
+        if 'strlist' in types.values() or 'strdict' in types.values():        # the strings after the plain ones are the list / the alternating keys and values
             pat = " :: ".join(["s%d" % i for i in range(nstr)] + ["rest"])
         args, i = [], 0
         for t in types.values():
@@ -690,8 +692,11 @@ def string_fragment(report, uri_consts, shape_consts):
                 args.append("opt")
             elif t == 'strlist':
                 args.append("rest")
+            elif t == 'strdict':
+                args.append("(pairs rest)")
         call = "%s %s%s" % (lname, "resolve " if "(resolve :" in header else "", " ".join(args))
         arms.append('  | "%s", %s => some (%s)' % (lname, pat, call if ret == 'optstr' else "(%s).map fun b => some (if b then ['1'] else ['0'])" % call if ret == 'bool' else "(%s).map some" % call))
+    out.append("def pairs : List (List Char) → List (List Char × List Char)\n  | k :: v :: rest => (k, v) :: pairs rest\n  | _ => []\n")
     out.append("/-- dispatch by name for `strdriver` (the translator's correspondence check) -/")
     out.append("def dispatch (resolve : List Char → List Char → List Char) (name : String) (strs : List (List Char)) (flag : Bool)")
     out.append("    (opt : Option (List Char)) : Option (Except PyExc (Option (List Char))) :=")
